@@ -604,3 +604,7 @@ builtin_wrappers! {
     builtin_str_index => crate::builtin::verif_reexport::str_index,
     builtin_str_insert => crate::builtin::verif_reexport::str_insert,
 }
+
+pub fn media_merge_lists(a: &[MediaQuery], b: &[MediaQuery]) -> Option<Vec<MediaQuery>> {
+    crate::Visitor::verif_merge_media_queries(a, b)
+}
